@@ -1,3 +1,5 @@
 pub mod c06;
+pub mod c08;
+pub mod c11;
 pub mod c20;
 pub mod sim;
